@@ -375,6 +375,20 @@ def rule_fatlen(ctx, rep):
                             r = symx.inline_call(F, ce) if ce[0] == "call" else None
                             if r is not None:
                                 sized_with += [_nobb(x) for x in _array_args(r)]
+                    # ... or multiplied out by hand: `size_of::<T>().checked_mul(len)` / `size_of::<T>() * len` (that the product
+                    # is the slice part of the requested layout is R-LAYOUT's evaluation, with this length as the tail length)
+                    def _len_factor(x, y):
+                        for u, v in ((x, y), (y, x)):
+                            if u[0] == "call" and u[1] == "core::mem::size_of":
+                                sized_with.append(v)
+
+                    for bj, t2 in OB.calls():
+                        if (atomics.callee_of(t2) or "").endswith(("::checked_mul", "::wrapping_mul", "::saturating_mul", "::overflowing_mul", "::unchecked_mul")) and len(t2["args"]) == 2:
+                            _len_factor(_nobb(symx.expr(F, OB, t2["args"][0])), _nobb(symx.expr(F, OB, t2["args"][1])))
+                    for bl2 in owner["blocks"]:
+                        for s2 in bl2["stmts"]:
+                            if s2["k"] == "assign" and s2["rv"]["k"] == "binop" and s2["rv"]["op"].startswith("Mul"):
+                                _len_factor(_nobb(symx.expr(F, OB, s2["rv"]["a"])), _nobb(symx.expr(F, OB, s2["rv"]["b"])))
                     cand = len_e
                     if b["kind"] == "Closure" and len_e[0] == "proj" and len_e[1] == ("arg", 1) and len_e[2]:
                         try:
